@@ -23,6 +23,6 @@ git apply "$SDH/patch.diff" 2>/dev/null || git apply --3way "$SDH/patch.diff" ||
 echo "== build+suite with patch"; go build ./... 2>&1 | tail -3; rm -f "$WT/$DEMO"; go test -vet=off -count=1 ./... 2>&1 | grep -v "no test files" | grep -v "^ok" | tail -5; echo "suite rc=$?"
 cp "$SDH/$DREL" "$WT/$DEMO"
 echo "== patched tree demo"; (cd $WT && eval "$RUN" 2>&1 | tail -4)
-rm -f "$WT/$DEMO"; git reset -q; git checkout -q -- .
+rm -f "$WT/$DEMO"; git reset -q; git checkout -q -- .; git clean -fdq -e seed_1 -e seed_2
 mv /tmp/wt/.hold_seed_1_$$ $WT/seed_1 2>/dev/null; mv /tmp/wt/.hold_seed_2_$$ $WT/seed_2 2>/dev/null
 git status --short | head -5
